@@ -3,7 +3,7 @@
   Property theorems only (helper lemmas: Lemmas/Serialize.lean, Lemmas/CleanUp.lean).
 
   What is carried by theorems here (function level, unbounded):
-    * T1  `roundtrip_tree`, `encode_total_iff`  — `decode_from_dict ∘ json ∘ encode_to_dict` is the
+    * T1  `roundtrip_tree`, `encode_total_iff`, `roundtrip_lossy`  — `decode_from_dict ∘ json ∘ encode_to_dict` is the
           identity on every sharing-free `Encodable` value and the encoder succeeds exactly on `EncShape`;
     * T2  `roundtrip_dag` — the `refs` discipline over an abstract identity-labelled universe (post-order
           registration, lists transparent): decode ∘ encode rebuilds every shared graph;
@@ -16,6 +16,7 @@
 import NemoVerif.Lemmas.Serialize
 import NemoVerif.Lemmas.CleanUp
 import NemoVerif.Lemmas.SerializeRefs
+import NemoVerif.Lemmas.SerializeLossy
 namespace NemoVerif.C11
 open NemoVerif NemoVerif.Serialize NemoVerif.CleanUp
 
@@ -41,6 +42,31 @@ theorem encode_total_iff (v : PV) : (encode v).isOk = true ↔ EncShape v = true
 theorem encodable_encShape (v : PV) (h : Encodable v = true) : EncShape v = true := by
   obtain ⟨j, h1, _⟩ := Serialize.roundtrip v h
   rw [← Serialize.encode_isOk, h1]; rfl
+
+/-- What a save/restore returns in general — on every value the encoder accepts and whose classes the
+    decoder knows (`Decodable`): the value with dict keys stringified, `functools.partial` dropped and raw
+    action payloads JSON-normalised (`norm`).  This makes the lossy region of the round trip explicit:
+    the restored value equals the saved one exactly when `norm v = v`. -/
+theorem roundtrip_lossy (v : PV) (h : Decodable v = true) : (encode v >>= decode) = .ok (norm v) := by
+  obtain ⟨j, h1, h2⟩ := Serialize.lossy v h
+  simp [h1, h2, bind, Except.bind]
+
+theorem restore_is_identity_iff (v : PV) (h : Decodable v = true) :
+    (encode v >>= decode) = .ok v ↔ norm v = v := by
+  rw [roundtrip_lossy v h]
+  constructor
+  · intro e; injection e
+  · intro e; rw [e]
+
+/-- nothing is lost on `Encodable` values -/
+theorem norm_of_encodable (v : PV) (h : Encodable v = true) : norm v = v := Serialize.norm_id v h
+
+example : Decodable (.dict [(.int 1, .partialFn), (.none, .tuple [.str "a"])]) = true
+    ∧ norm (.dict [(.int 1, .partialFn), (.none, .tuple [.str "a"])])
+        = .dict [(.str "1", .none), (.str "null", .tuple [.str "a"])] := by
+  constructor
+  · simp [Decodable, DecodableKvs, DecodableList, Key.dumpable]
+  · simp [norm, normKvs, normList, normKey]; decide
 
 /-- Finite fact about the class table generated from the current source (re-checked on every run):
     every dataclass the decoder can be asked to rebuild accepts its own complete field list, i.e. no
